@@ -32,6 +32,9 @@ FB = [
 ]
 
 
+TWIN_FB = [dict(site="c1.fb_val", owner="c1", meth="get_val", key=None, hint=float, nt="/components/c1/val", topic="DoubleTopic"),
+           dict(site="c2.fb_val", owner="c2", meth="get_val", key=None, hint=float, nt="/components/c2/val", topic="DoubleTopic")]
+
 OVERRIDE = dict(site="c2.fb_angle_override", owner="c2", meth="get_angle", key=None, hint=float, nt="/components/c2/angle", topic="DoubleTopic")
 
 
@@ -99,7 +102,21 @@ def run(c, job):
             if spec["owner"] == "robot":
                 setattr(RobotBase0, spec["meth"], _decorate(feedback, _mk_getter(H, spec, state), spec))
 
-    return lcm.run_robot(c, job, dict(feedbacks=comp_fb, robot_feedbacks=robot_fb))
+    def twin_fb(H, CompTwin, feedback):
+        # two components of one and the same class: each publishes its own value under its own name
+        def get_val(self):
+            site = f"{self.NAME}.fb_val"
+            state["n"] += 1
+            H.callback(site, self.NAME)
+            v = H.c.real(f"v_{site}_{state['n']}", -1000, 1000)
+            H.log.add("fbret", site, v)
+            return v
+
+        get_val.__annotations__ = {"return": float}
+        CompTwin.get_val = feedback(get_val)
+        H.fb_specs = list(TWIN_FB)
+
+    return lcm.run_robot(c, job, dict(feedbacks=comp_fb, robot_feedbacks=robot_fb, twin_feedbacks=twin_fb))
 
 
 def _same(a, b):
@@ -116,6 +133,9 @@ def clauses(c, H):
     pre, segs = lcm.parse(H.log)
     layout = H.job["layout"]
     specs = list(FB)
+    base = FB
+    if layout == "R5":
+        specs = base = TWIN_FB + [s for s in FB if s["owner"] == "robot"]
     if layout == "R2":
         # c2 (CompB) inherits CompA's getters as well: published under /components/c2/...; get_angle is overridden
         specs = specs + [dict(s, site=s["site"], owner="c2", nt=s["nt"].replace("/c1/", "/c2/"), inherited=True)
@@ -133,7 +153,7 @@ def clauses(c, H):
                     outcomes.setdefault(e[1], []).append(("raise",))  # until a value is returned
                 elif e[0] == "fbret":
                     outcomes[e[1]][-1] = ("ret", e[2])
-            for s in FB + ([OVERRIDE] if layout == "R2" else []):
+            for s in base + ([OVERRIDE] if layout == "R2" else []):
                 n = order.count(s["site"])
                 exp_n = 2 if (layout == "R2" and s["owner"] == "c1" and s["meth"] != "get_angle") else 1
                 c.prove("C11.once getter-called-once-per-iteration", n == exp_n, info=dict(site=s["site"], calls=n, mode=sg.mode))
@@ -179,7 +199,7 @@ class C11(LoopSpec):
         fs = [s["site"] for s in FB]
         if tier == "quick":
             return [mkjob("R1", 3, True, fms=True, nt_snapshot=True),
-                    mkjob("R2", 3, False, fms=True, nt_snapshot=True),
+                    mkjob("R2", 3, False, fms=True, nt_snapshot=True), mkjob("R5", 3, True, fms=True, nt_snapshot=True),
                     mkjob("R1", 3, True, fms=True, nt_snapshot=True, faults=1, fault_sites=fs, fault_patterns=["later", "always"]),
                     # a getter failing with something that is not an Exception subclass
                     mkjob("R1", 2, False, fms=True, nt_snapshot=True, faults=1, fault_sites=[fs[0], fs[5], fs[8]], fault_patterns=["always"], fault_kind="base"),
@@ -187,7 +207,7 @@ class C11(LoopSpec):
                     mkjob("R1", 3, True, fms=True, nt_snapshot=True, faults=1, use_teleop_in_autonomous=True, fault_patterns=["always"],
                           fault_sites=["robot.teleopPeriodic", "c1.execute", "auto.on_iteration", "robot.disabledPeriodic", "robot.testPeriodic"])]
         return [mkjob("R1", 5, True, fms=True, nt_snapshot=True), mkjob("R2", 4, True, fms=True, nt_snapshot=True),
-                mkjob("R3", 5, False, fms=True, nt_snapshot=True),
+                mkjob("R3", 5, False, fms=True, nt_snapshot=True), mkjob("R5", 4, True, fms=True, nt_snapshot=True),
                 mkjob("R1", 4, True, fms=True, nt_snapshot=True, faults=1, fault_sites=fs, fault_patterns=["first", "later", "always"]),
                 mkjob("R2", 3, True, fms=True, nt_snapshot=True, faults=2, fault_sites=fs[:4], fault_patterns=["later", "always"]),
                 mkjob("R1", 3, True, fms=True, nt_snapshot=True, faults=1, fault_sites=fs, fault_patterns=["later", "always"], fault_kind="any"),
